@@ -123,7 +123,9 @@ pub fn proofs(w: &mut World, sid: usize) {
     for (cid, cdh) in lj::coins_typed(&s.verif_view(), &w.names).iter().take(200) {
         note("coins", "typed-get", s.coin(*cid).as_ref() == Some(cdh));
     }
-    for h in 0..hd.height.0.min(50) {
+    // every height the history tree actually holds (a lineage fabricated at a height does not hold all of 0..height)
+    let held: Vec<u64> = { let mut v: Vec<u64> = lj::tree_entries(&s.raw_history_smt()).iter().filter_map(|(k, _)| w.names.heights.get(k).copied()).collect(); v.sort(); v.truncate(50); v };
+    for h in held {
         let hist: SmtMapping<InMemoryCas, BlockHeight, Header> = SmtMapping::new(s.raw_history_smt());
         let (v, proof) = hist.get_with_proof(&BlockHeight(h));
         let key = tmelcrypt::hash_single(&stdcode::serialize(&BlockHeight(h)).unwrap()).0;
@@ -191,7 +193,10 @@ pub fn proofs(w: &mut World, sid: usize) {
         note("txs", "absent", v.is_none() && proof.verify(hd.transactions_hash.0, tmelcrypt::hash_single(&stdcode::serialize(&absent).unwrap()).0, &[]));
     }
     let rows: Vec<J> = tally.iter().map(|((t, k, ok), n)| json!({"tree": t, "kind": k, "ok": ok, "n": n})).collect();
-    let ev = json!({"ev": "proofs", "preid": sid, "height": hd.height.0, "rows": rows, "res": "ok"});
+    // a state and its restarted twin must answer every proof / position query alike (C08)
+    let dg = hex::encode(&tmelcrypt::hash_single(serde_json::to_vec(&rows).unwrap()).0[..12]);
+    let claims = json!([[format!("C08|queries|{}|{}", w.tag, lj::hx(&hd.hash())), dg, "C08", "a state rebuilt from its block answers proof / position queries differently from the original"]]);
+    let ev = json!({"ev": "proofs", "preid": sid, "height": hd.height.0, "rows": rows, "claims": claims, "res": "ok"});
     w.out.put({ let mut e = ev; e["i"] = json!(w.events); e["tag"] = json!(w.tag.clone()); e });
     w.events += 1;
 }
@@ -334,6 +339,7 @@ pub fn chain_history(out: &mut crate::Out, tag: &str, seed: u64, net: NetID, blo
         // 5. proofs of everything in the new state; restart it; the twin follows in lockstep
         proofs(&mut d.w, sealed);
         let t = d.w.restart(sealed);
+        proofs(&mut d.w, t);
         // the twin must behave the same on direct calls too: same next batch verdicts (one probe batch) and same seal
         if let (St::S(a), St::S(bb)) = (d.w.states[sealed].clone(), d.w.states[t].clone()) {
             let _ = (a, bb);
